@@ -693,7 +693,8 @@ func (db *RockDB) SetRange(ts int64, rawKey []byte, offset int, value []byte) (i
 	if len(value) == 0 {
 		return 0, nil
 	}
-	if offset < 0 {
+	if offset < 0 || offset > MaxValueSize {
+		// also keeps len(value)+offset below from overflowing
 		return 0, errOffsetOutOfRange
 	}
 	if len(value)+offset > MaxValueSize {
